@@ -51,3 +51,5 @@ META['C03'] = dict(level='proof', level_text='', level_note='', explanation='wip
 META['C05'] = dict(level='proof', level_text='', level_note='', explanation='wip', assumptions=[], technique=TECH)
 META['C20'] = dict(level='proof', level_text='', level_note='', explanation='wip', assumptions=[], technique=TECH)
 META['C07'] = dict(level='proof', level_text='', level_note='', explanation='wip', assumptions=[], technique=TECH)
+META['C12'] = dict(level='other', level_text='', level_note='', explanation='wip', assumptions=[], technique=TECH)
+META['C09'] = dict(level='other', level_text='', level_note='', explanation='wip', assumptions=[], technique=TECH)
